@@ -70,6 +70,9 @@ def gen_transfer_schedule(rnd, idn, faults):
     if kind in ('none', 'restart') and rnd.random() < 0.5:
         # the hand-over at its edge: the source has scraped three times, the destination twice, and the next cycle
         # runs while the destination's third scrape is under way (or right after the destination restarted)
+        if rnd.random() < 0.5:
+            # ... while the targets do not answer: attempts count, once each
+            st += [step('alive', t=1, on=False), step('alive', t=2, on=False)]
         st += [step('scrape', i=1)] * 3 + [step('scrape', i=2)] * 2
         if kind == 'restart':
             st.append(step('restart', i=2))
@@ -177,8 +180,11 @@ def gen_full_shards_schedule(rnd, idn, faults):
     return dict(id=idn, nsh0=rnd.choice([1, 2]), nt=NT, opts=opts, sizes=sizes, steps=st, quietFrom=quiet_from, expectConverge=True)
 
 
-def gen_schedule(rnd, idn, faults):
+def gen_schedule(rnd, idn, faults, handover=False):
     x = rnd.random()
+    if handover and x < 0.75:
+        # the hand-over property: most runs are moves, and most of the moves meet no other fault
+        return gen_transfer_schedule(rnd, idn, faults and rnd.random() < 0.4)
     if x < 0.3:
         return gen_transfer_schedule(rnd, idn, faults)
     if x < 0.45:
@@ -285,6 +291,7 @@ def trace_cfg(opts):
   TooBigFirst = %s
   TieBreakByOrder = %s
   RevertOrphanTransfer = %s
+  ZeroNeedsPlace = TRUE
   InputSet = {}
   Targets = {%s}
   MaxN = %d
@@ -313,6 +320,7 @@ def model_cfg(spec, props, env, faults, initdisc, live=False):
   TooBigFirst = %s
   TieBreakByOrder = %s
   RevertOrphanTransfer = %s
+  ZeroNeedsPlace = TRUE
   InputSet = {}
   Targets = {1, 2}
   MaxN = 3
@@ -371,6 +379,7 @@ def sim_schedules(sd, faults, per_preset, first_id):
   TooBigFirst = %s
   TieBreakByOrder = %s
   RevertOrphanTransfer = %s
+  ZeroNeedsPlace = TRUE
   InputSet = {}
   Targets = {%s}
   MaxN = %d
@@ -416,7 +425,7 @@ def run_loop(prop, tier, scratch, faults, replay=None):
     if replay:
         scheds = [json.load(open(replay))['schedule']]
     else:
-        scheds = [gen_schedule(rnd, i + 1, faults) for i in range(n)]
+        scheds = [gen_schedule(rnd, i + 1, faults, handover=(prop == 'C05')) for i in range(n)]
         scheds += sim_schedules(sd, faults, 10 if tier == 'quick' else 100, n + 1)
     sf = os.path.join(sd, 'scheds.ndjson')
     C.write_ndjson(sf, scheds)
@@ -492,21 +501,27 @@ def check(prop, tier, replay=None):
         return C.conclude(prop, tier, 'model_checking', cov, t0, violations, assumptions=assumptions, drift=drift)
 
 
-def check_c05(prop, tier, replay=None):
+def check_c03(prop, tier, replay=None):
+    """C03 = the closed loop + the cycle form of its last sentence ("whenever all shards are in sync and an eligible
+    unscraped target cannot be placed, the requested shard count exceeds the current one") on scripted cycles."""
+    return check_c05(prop, tier, replay, faults=False)
+
+
+def check_c05(prop, tier, replay=None, faults=True):
     """C05 = the cycle form (scripted shards, all report combinations) + the history form (closed loop with
     real sidecars: the cycle formulas on every cycle the coordinator ran, and no gap in which a held target
     is held by nobody), without and with faults."""
     t0 = time.time()
     with C.Scratch(prop) as scratch:
         if replay and 'schedule' in json.load(open(replay)):
-            v, cov, drift, ass = collect(prop, tier, scratch, True, replay)
+            v, cov, drift, ass = collect(prop, tier, scratch, faults, replay)
             return C.conclude(prop, tier, 'model_checking', cov, t0, v, assumptions=ass, drift=drift)
         v1, cov1, d1, a1 = CY.collect(prop, tier, os.path.join(scratch), replay)
         if replay:
             return C.conclude(prop, tier, 'model_checking', cov1, t0, v1, assumptions=a1, drift=d1)
         s2 = os.path.join(scratch, 'loop')
         os.makedirs(s2)
-        v2, cov2, d2, a2 = collect(prop, tier, s2, True, None)
+        v2, cov2, d2, a2 = collect(prop, tier, s2, faults, None)
         cov = dict(cov1)
         cov['states'] = cov1['states'] + cov2['states']
         cov['transitions'] = cov1['transitions'] + cov2['transitions']
